@@ -57,6 +57,10 @@ pub struct ConsumerCase {
     pub which: Vec<u8>,
     #[serde(default)]
     pub second: Option<Second>,
+    /// history across graphs on the same thread: first build a graph of the same shape (every
+    /// read reverse-complemented: same sizes, different content), iterate one of its nodes, drop it
+    #[serde(default)]
+    pub prior_graph: bool,
 }
 
 #[derive(Clone, Debug, Serialize, Deserialize)]
@@ -132,6 +136,23 @@ fn open_slot<'g, K: Kmer + Send + Sync>(
 }
 
 fn run_consumer<K: Kmer + Send + Sync>(c: &ConsumerCase, rec: &mut Rec) -> Result<(), Violation> {
+    if c.prior_graph {
+        let mut spec = c.graph.clone();
+        for r in spec.reads.iter_mut() {
+            *r = dna::rc(r);
+        }
+        let prior = build::<K>(&spec);
+        if prior.len() > 0 {
+            let id = c.node_sel % prior.len();
+            let model = node_kmers_model(&prior, id);
+            let got: Vec<K> = prior.get_node_kmer(id).into_iter().collect();
+            if got != model {
+                return Err(Violation::new("wrong-kmer", "NodeKmerIter::next", format!("prior graph: node {} iterated to {} k-mers that differ from the model", id, got.len())));
+            }
+            rec.count("reach_prior_graph_iterated");
+        }
+        drop(prior);
+    }
     let g = build::<K>(&c.graph);
     rec.ev("graph", g.len() as u64, 0);
     if g.len() == 0 {
@@ -282,8 +303,10 @@ impl Harness for Consumer {
             Tier::Thorough => 20_000_000,
         }
     }
-    fn gen(&self, rng: &mut Rng, _tier: Tier) -> ConsumerCase {
-        let graph = gen_graph_spec(rng, &KTYPES, 5, 90);
+    fn gen(&self, rng: &mut Rng, tier: Tier) -> ConsumerCase {
+        // long nodes (hundreds of k-mers, many storage blocks) now and then; more often in the thorough tier
+        let long = rng.chance(1, if tier == Tier::Thorough { 40 } else { 400 });
+        let graph = if long { gen_graph_spec(rng, &KTYPES, 4, 1500) } else { gen_graph_spec(rng, &KTYPES, 5, 90) };
         ConsumerCase {
             graph,
             node_sel: if rng.chance(1, 4) { usize::MAX } else { rng.below(1 << 16) },
@@ -291,6 +314,7 @@ impl Harness for Consumer {
             ops: gen_ops(rng),
             which: Vec::new(),
             second: None,
+            prior_graph: rng.chance(1, 4),
         }
         .with_second(rng)
     }
@@ -304,6 +328,11 @@ impl Harness for Consumer {
     }
     fn shrink(&self, c: &ConsumerCase) -> Vec<ConsumerCase> {
         let mut out = Vec::new();
+        if c.prior_graph {
+            let mut x = c.clone();
+            x.prior_graph = false;
+            out.push(x);
+        }
         if c.second.is_some() {
             let mut x = c.clone();
             x.second = None;
@@ -470,8 +499,9 @@ impl Harness for MphfSerial {
             Tier::Thorough => 4_000_000,
         }
     }
-    fn gen(&self, rng: &mut Rng, _tier: Tier) -> MphfCase {
-        let graph = gen_graph_spec(rng, &KTYPES, 8, 160);
+    fn gen(&self, rng: &mut Rng, tier: Tier) -> MphfCase {
+        let long = rng.chance(1, if tier == Tier::Thorough { 40 } else { 400 });
+        let graph = if long { gen_graph_spec(rng, &KTYPES, 6, 1500) } else { gen_graph_spec(rng, &KTYPES, 8, 160) };
         let gamma_milli = match rng.below(4) {
             0 => 1700,
             1 => rng.range(1020, 1200) as u32,
